@@ -28,6 +28,7 @@ import TickitModel.Core.Http
 import TickitModel.Core.Epics
 import TickitModel.Core.StopProtocol
 import TickitModel.Core.MsgFlatRun
+import TickitModel.Core.RaceRes
 
 open Lean Tickit
 
@@ -576,6 +577,36 @@ def opMsgRun (j : Json) : Json :=
       | none => Json.mkObj [("accepted", Json.bool false), ("at", toJson k), ("why", Json.str "action not enabled")]
   go (MsgRunSt.initial []) acts 0
 
+/-- TCP io resource model (`Core/RaceRes`, `TcpSt`) as a strict TRACE ACCEPTOR: the observable events of real connections
+(connect = first reply task of a connection, chunk, reply task done, end of stream, handler returned) must all be enabled,
+in the order observed; after every event the model's live tasks / retained handles are returned for comparison with what
+was measured on the real io. -/
+def opTcpRes (j : Json) : Json :=
+  let fixed := match jfield j "fixed" with | .bool b => b | _ => true
+  let rec go (evs : List Json) (s : TcpSt) (i : Nat) (acc : List Json) : Json :=
+    match evs with
+    | [] => Json.mkObj [("accepted", Json.bool true), ("trace", Json.arr acc.reverse.toArray)]
+    | e :: rest =>
+      let a : Option TcpAct := match jarr e with
+        | [k] => if jstr k == "connect" then some .connect else none
+        | [k, n] => (match jstr k with
+          | "chunk" => some (.chunk (jnat n))
+          | "done" => some (.replyDone (jnat n))
+          | "eof" => some (.eof (jnat n))
+          | "finish" => some (.finish (jnat n))
+          | _ => none)
+        | _ => none
+      match a with
+      | none => Json.mkObj [("accepted", Json.bool false), ("at", toJson i), ("why", Json.str "unknown event")]
+      | some a =>
+        match s.step fixed a with
+        | none => Json.mkObj [("accepted", Json.bool false), ("at", toJson i), ("why", Json.str "event not enabled in the model"),
+            ("trace", Json.arr acc.reverse.toArray)]
+        | some s' =>
+          go rest s' (i + 1) (Json.mkObj [("tasks", toJson s'.tasks), ("retained", toJson s'.retained),
+            ("replyLive", toJson s'.replyLive), ("open", toJson s'.openConns)] :: acc)
+  go (jarr (jfield j "events")) {} 0 []
+
 def handleLine (line : String) : String :=
   match Json.parse line with
   | .error e => (Json.mkObj [("err", "parse:" ++ e)]).compress
@@ -601,6 +632,7 @@ def handleLine (line : String) : String :=
       | "stopproto" => opStopProto j
       | "http" => opHttp j
       | "epics" => opEpics j
+      | "tcpres" => opTcpRes j
       | "ping" => Json.str "pong"
       | _ => Json.mkObj [("err", "bad-op")]
     r.compress
